@@ -17,9 +17,13 @@ def ev(e, env):
         if e.id in env:
             return env[e.id]
         raise Unknown(e.id)
-    if isinstance(e, ast.BoolOp):
-        vals = [ev(v, env) for v in e.values]
-        return all(vals) if isinstance(e.op, ast.And) else any(vals)
+    if isinstance(e, ast.BoolOp):            # short-circuit like Python
+        res = isinstance(e.op, ast.And)
+        for v in e.values:
+            res = ev(v, env)
+            if bool(res) != isinstance(e.op, ast.And):
+                return res
+        return res
     if isinstance(e, ast.UnaryOp) and isinstance(e.op, ast.Not):
         return not ev(e.operand, env)
     if isinstance(e, ast.Subscript):
@@ -85,6 +89,11 @@ def _ev_ext(e, env):
         return -_ev_ext(e.operand, env)
     if isinstance(e, ast.Call) and isinstance(e.func, ast.Attribute) and e.func.attr == 'index' and len(e.args) == 1:
         return _ev_ext(e.func.value, env).index(_ev_ext(e.args[0], env))
+    if isinstance(e, ast.Call) and isinstance(e.func, ast.Name) and callable(env.get(e.func.id)) and not e.keywords:
+        # a helper modelled by the caller (e.g. as_tuple / is_iterable over abstract objects)
+        return env[e.func.id](*[_ev_ext(a, env) for a in e.args])
+    if isinstance(e, ast.Call) and isinstance(e.func, ast.Name) and e.func.id == 'hasattr' and len(e.args) == 2:
+        return hasattr(_ev_ext(e.args[0], env), _ev_ext(e.args[1], env))
     if isinstance(e, ast.Call) and isinstance(e.func, ast.Name) and e.func.id in ('tuple', 'list', 'as_tuple') and len(e.args) == 1:
         return tuple(_ev_ext(e.args[0], env))
     if isinstance(e, ast.Call) and isinstance(e.func, ast.Name) and e.func.id == 'enumerate' and len(e.args) == 1 and not e.keywords:
@@ -113,9 +122,13 @@ def _ev_ext(e, env):
         return (a in b) if isinstance(e.ops[0], ast.In) else (a not in b)
     if isinstance(e, (ast.BoolOp, ast.Compare)) or (isinstance(e, ast.UnaryOp) and isinstance(e.op, ast.Not)):
         # re-use ev's operators but evaluate the operands with the extended forms
-        if isinstance(e, ast.BoolOp):
-            vals = [_ev_ext(v, env) for v in e.values]
-            return all(vals) if isinstance(e.op, ast.And) else any(vals)
+        if isinstance(e, ast.BoolOp):        # short-circuit like Python
+            res = isinstance(e.op, ast.And)
+            for v in e.values:
+                res = _ev_ext(v, env)
+                if bool(res) != isinstance(e.op, ast.And):
+                    return res
+            return res
         if isinstance(e, ast.UnaryOp):
             return not _ev_ext(e.operand, env)
         tmp = {'__l': _ev_ext(e.left, env), '__r': _ev_ext(e.comparators[0], env)}
@@ -146,6 +159,9 @@ def _bind(target, value, env):
                 _bind(t, v, env)
     else:
         raise Unknown(ast.unparse(target))
+
+
+ev_ext = _ev_ext
 
 
 def run_block(stmts, env):
